@@ -284,7 +284,11 @@ func (g *docGen) extras(pairs [][2]any, n int) [][2]any {
 
 func (g *docGen) commandStep() orderedJSON {
 	p := [][2]any{}
-	if g.oneCommand || g.pick(2) == 0 {
+	if !g.oneCommand && g.pick(9) == 0 {
+		// an EMPTY command (written "", or as an empty list): the step is still a command step, and says so in its
+		// normal form - nothing else in it may be telling
+		p = append(p, [][2]any{{"command", ""}, {"commands", []any{}}, {"command", []any{}}, {"commands", ""}}[g.pick(4)])
+	} else if g.oneCommand || g.pick(2) == 0 {
 		p = append(p, [2]any{"command", g.str("command")})
 	} else if g.pick(2) == 0 {
 		p = append(p, [2]any{"commands", []any{g.str("command"), g.str("command")}})
